@@ -284,6 +284,14 @@ func (x *Exec) doExportContinue(op *Op) {
 	if !x.checkPrepared(pre, mid, "export-and-continue") && x.stopped {
 		return // (only a run that arms C19 ends here; the others go on to live on the restarted chain)
 	}
+	if len(mid.Ctx) >= 2 {
+		x.stats.inc("probe_export_with_2_live_contexts")
+	}
+	// what the preparation wrote back is judged before the import is attempted: a record it corrupted may well make
+	// the import fail, and then there is no restarted chain to look at
+	if exportCtxRules(x, pre, mid, "in the state prepared for the zero-height export"); x.stopped {
+		return
+	}
 	nh := &Host{cfg: h.cfg, db: dbm.NewMemDB(), chain: h.chain, generation: h.generation + 1}
 	nh.app = newApp(nh.db)
 	nh.registerForeign()
@@ -402,14 +410,45 @@ func exportStepRules(x *Exec, pre, post *Snap) {
 			return
 		}
 	}
-	if x.armed["C10"] || x.armed["C09"] {
-		for _, id := range pre.CtxIDs() {
-			if q, ok := post.Ctx[id]; ok && q.BatchCounter != pre.Ctx[id].BatchCounter {
-				p := "C10"
-				if !x.armed["C10"] {
-					p = "C09"
-				}
-				x.viol(p, "counter_changed_by_export", fmt.Sprintf("context %s: batch counter %d before the export, %d on the restarted chain", id[:12], pre.Ctx[id].BatchCounter, q.BatchCounter), nil)
+	exportCtxRules(x, pre, post, "on the restarted chain")
+}
+
+// exportCtxRules: a context that survives a zero-height export keeps everything but its state, batch state and
+// request counts (it comes back paused with no batch in flight); each field is judged for the property that depends on it.
+func exportCtxRules(x *Exec, pre, s *Snap, where string) {
+	for _, id := range pre.CtxIDs() {
+		pc := pre.Ctx[id]
+		q, ok := s.Ctx[id]
+		if !ok {
+			continue
+		}
+		if (x.armed["C10"] || x.armed["C09"]) && q.BatchCounter != pc.BatchCounter {
+			p := "C10"
+			if !x.armed["C10"] {
+				p = "C09"
+			}
+			x.viol(p, "counter_changed_by_export", fmt.Sprintf("context %s: batch counter %d before the export, %d %s", id[:12], pc.BatchCounter, q.BatchCounter, where), nil)
+			return
+		}
+		if x.armed["C09"] && ctxImmutableChanged(pc, q) {
+			x.viol("C09", "immutable_changed", fmt.Sprintf("an immutable field of context %s is different %s", id[:12], where), map[string]string{"context_origin": x.ctxOrigin(id), "step": "export"})
+			return
+		}
+		if x.armed["C10"] && (q.Timeout != pc.Timeout || q.RepeatedFrequency != pc.RepeatedFrequency || q.RepeatedTotal != pc.RepeatedTotal) {
+			x.viol("C10", "schedule_changed_by_export", fmt.Sprintf("context %s: timeout/frequency/total %d/%d/%d before the export, %d/%d/%d %s", id[:12], pc.Timeout, pc.RepeatedFrequency, pc.RepeatedTotal, q.Timeout, q.RepeatedFrequency, q.RepeatedTotal, where), nil)
+			return
+		}
+		if x.armed["C12"] && (q.ResponseThreshold != pc.ResponseThreshold || q.ModuleName != pc.ModuleName) {
+			x.viol("C12", "callback_terms_changed_by_export", fmt.Sprintf("context %s: owning module/threshold %q/%d before the export, %q/%d %s", id[:12], pc.ModuleName, pc.ResponseThreshold, q.ModuleName, q.ResponseThreshold, where), nil)
+			return
+		}
+		sameProv := len(q.Providers) == len(pc.Providers)
+		for i := 0; sameProv && i < len(q.Providers); i++ {
+			sameProv = bytes.Equal(q.Providers[i], pc.Providers[i])
+		}
+		for _, prop := range []string{"C06", "C07"} {
+			if x.armed[prop] && (!sameProv || !q.ServiceFeeCap.IsEqual(pc.ServiceFeeCap)) {
+				x.viol(prop, "terms_changed_by_export", fmt.Sprintf("context %s: provider list / fee cap (%d, %s) before the export, (%d, %s) %s", id[:12], len(pc.Providers), pc.ServiceFeeCap, len(q.Providers), q.ServiceFeeCap, where), nil)
 				return
 			}
 		}
